@@ -43,6 +43,7 @@ type sys struct {
 	lastAdjust time.Time
 	adjusted   bool // an adjustment happened since the last membership/config change
 	served     int
+	slow       bool // the next request's backend call takes 1.5 back-off intervals (the clock moves INSIDE the request)
 }
 
 func su(i int) *url.URL {
@@ -55,7 +56,13 @@ var base = clock.Date(2012, 3, 4, 5, 6, 7, 0, clock.UTC)
 func newSys(backoff time.Duration, initial []int) *sys {
 	clock.Freeze(base)
 	s := &sys{backoff: backoff, current: -1}
-	rr, err := roundrobin.New(http.HandlerFunc(func(w http.ResponseWriter, r *http.Request) { s.served++; w.WriteHeader(200) }))
+	rr, err := roundrobin.New(http.HandlerFunc(func(w http.ResponseWriter, r *http.Request) {
+		s.served++
+		if s.slow {
+			clock.Advance(s.backoff + s.backoff/2) // a backend call that lasts longer than the back-off
+		}
+		w.WriteHeader(200)
+	}))
 	if err != nil {
 		panic(err)
 	}
@@ -249,6 +256,7 @@ type opDesc struct {
 	notReady int
 	d        time.Duration
 	srv, w   int
+	slow     bool
 }
 
 var ratingVals = []float64{0, 0.4, 1}
@@ -278,6 +286,9 @@ func alphabet(backoff time.Duration, tier string) ([]string, []opDesc) {
 			}
 		}
 	}
+	// a request that takes longer than the back-off interval (time passes inside the rebalancer's ServeHTTP)
+	names = append(names, "SlowReq[1 0 0]")
+	descs = append(descs, opDesc{kind: 0, ratings: [nServers]float64{1, 0, 0}, notReady: -1, slow: true})
 	names = append(names, "Req[1 0 0]/s2-not-ready", "Req[0 0 1]/s1-not-ready")
 	descs = append(descs, opDesc{kind: 0, ratings: [nServers]float64{1, 0, 0}, notReady: 1}, opDesc{kind: 0, ratings: [nServers]float64{0, 0, 1}, notReady: 0})
 	for _, d := range []time.Duration{backoff / 2, backoff + time.Millisecond} {
@@ -313,7 +324,9 @@ func model(backoff time.Duration, tier string) *lib.Model[*sys] {
 		var vs []verdict
 		switch d.kind {
 		case 0:
+			s.slow = d.slow
 			obs, vs = s.request(d.ratings, d.notReady)
+			s.slow = false
 		case 1:
 			clock.Advance(d.d)
 		case 2:
